@@ -18,6 +18,14 @@ class N:
     n: int
 
 
+import enum as _enum
+
+
+class Tone(_enum.Enum):
+    LOW = "low"
+    HIGH = "high"
+
+
 def _dv_str():
     return "".join(["d", "v"])   # built at run time: equal to 'dv' but not the interned literal
 
@@ -33,8 +41,12 @@ TYPES = {
     "nested": {"hint": N, "good": [({"n": 7}, N(7)), ({"n": 8}, N(8))], "bad": {"n": "x"}, "dv": None, "df": None},
     "dictany": {"hint": typing.Dict[str, Any], "good": [({}, {}), ({"k": 1}, {"k": 1})], "bad": 5, "dv": None, "df": dict},
     "listdv": {"hint": List[int], "good": [([1, 2], [1, 2]), ([], [])], "bad": [1, "x"], "dv": [], "df": None},
+    "enum": {"hint": Tone, "good": [("low", Tone.LOW), ("high", Tone.HIGH)], "bad": "nope", "dv": Tone.LOW, "df": None},
     "bool": {"hint": bool, "good": [(True, True), (False, False)], "bad": 1, "dv": True, "df": None},
 }
+
+
+BAD_VALUES = {"nested": 5, "listint": 5, "listdv": 5, "enum": "not-a-member", "dictany": 5}
 
 
 def _nested_factory():
@@ -88,6 +100,8 @@ def spec_valid(spec):
         if kind == "sqlalchemy" and tkey in ("nested", "listint", "any", "dictany"):
             return False
         if kind == "sqlalchemy" and name.startswith("_"):
+            return False
+        if tkey == "enum" and kind == "pydantic":
             return False
         if kind == "sqlalchemy" and (req != "req" or tkey not in ("int", "str", "bool")):
             # SQLAlchemy column defaults are applied at flush time (the constructed object holds None) and a nullable column is
